@@ -387,6 +387,11 @@ def run_impl(case):
             flat += [99]
             oracle_fail("op %d %r raised %r" % (opi, op, e))
             break
+    # the user's intent as tracked by the oracle, root first (compared with
+    # the specification spec_run of the Coq development)
+    flat += [-5]
+    for k in range(len(chain)):
+        flat += sorted(excl[k]) + [-7] + sorted(ever[k]) + [-7]
     return flat, fail[0], stats
 
 
@@ -616,7 +621,7 @@ def run(run):
                        "op:enable", "op:rminvalid", "op:grow"][o[0]])
         if fail is not None:
             run.oracle_failure(c, fail, classify(c, fail))
-    model = common.coq_map(run.scratch, "c04", HEADER, "run_flat",
+    model = common.coq_map(run.scratch, "c04", HEADER, "run_both",
                            [render(c) for c in cases], shard=20)
     for c, m, (flat, fail, stats) in zip(cases, model, results):
         run.corr_checked += 1
